@@ -41,6 +41,9 @@ type ctxInfo struct {
 	ctx       context.Context
 	used      bool
 	cancelled bool
+	// expire ends the context from outside (the worker's refresh timeout
+	// fires); it is not the worker's own cancel.
+	expire context.CancelCauseFunc
 }
 
 // rwWorld is a RefreshWorker with all its collaborators faked.
@@ -60,6 +63,8 @@ type rwWorld struct {
 	startCtx  context.Context
 	startStop context.CancelFunc
 	shutCtx   context.Context
+	shutStop  context.CancelCauseFunc // Shutdown's context expires
+	errWho    map[int]string          // errWho[k]: which refresh ("loop"/"final") produced errs[k]
 	ctxs      map[int]*ctxInfo
 	nctx      int
 	loopOuts  []string
@@ -91,6 +96,7 @@ func newRWWorld(loopOuts []string, finalOut string, durOf func(int) time.Duratio
 		loopOuts:  loopOuts,
 		finalOut:  finalOut,
 		errs:      map[int]error{},
+		errWho:    map[int]string{},
 		gateHit:   make(chan struct{}, 1),
 		gateGo:    make(chan struct{}),
 		finalHit:  make(chan struct{}, 1),
@@ -158,14 +164,14 @@ func (w *rwWorld) New(parent context.Context) (context.Context, context.CancelFu
 	case w.shutCtx:
 		ci.kind = "final"
 	}
-	ctx, cancel := context.WithCancel(context.WithValue(parent, ctxKey{}, ci.id))
-	ci.ctx = ctx
+	ctx, cancel := context.WithCancelCause(context.WithValue(parent, ctxKey{}, ci.id))
+	ci.ctx, ci.expire = ctx, cancel
 	w.ctxs[ci.id] = ci
 	return ctx, func() {
 		w.mu.Lock()
 		ci.cancelled = true
 		w.mu.Unlock()
-		cancel()
+		cancel(nil)
 	}
 }
 
@@ -207,7 +213,11 @@ func (w *rwWorld) Refresh(ctx context.Context) error {
 	var err error
 	if ev.Out == "err" {
 		err = fmt.Errorf("refresh #%d failed", ev.K)
-		w.errs[ev.K] = err
+		w.errs[ev.K], w.errWho[ev.K] = err, ev.Who
+	}
+	var ci *ctxInfo
+	if id, ok := ctx.Value(ctxKey{}).(int); ok {
+		ci = w.ctxs[id]
 	}
 	w.log = append(w.log, ev)
 	w.mu.Unlock()
@@ -228,6 +238,37 @@ func (w *rwWorld) Refresh(ctx context.Context) error {
 		case <-time.After(watchdog):
 		}
 	}
+	switch ev.Out {
+	case "ctxerr", "wctxerr", "cause":
+		// The refresh is interrupted by ITS OWN context becoming done while
+		// it runs: the worker's refresh timeout fires (periodic refresh), or
+		// Shutdown's context expires (final refresh).  The refresher waits
+		// for that and reports it - an error like any other.
+		cause := fmt.Errorf("deadline of refresh #%d: %w", ev.K, context.DeadlineExceeded)
+		if ev.Who == "final" && w.shutStop != nil {
+			w.shutStop(cause)
+		} else if ci != nil && ci.expire != nil {
+			ci.expire(cause)
+		}
+		select {
+		case <-ctx.Done():
+		case <-time.After(watchdog):
+		}
+		switch ev.Out {
+		case "ctxerr":
+			err = ctx.Err()
+		case "wctxerr":
+			err = fmt.Errorf("refresh #%d interrupted: %w", ev.K, ctx.Err())
+		default:
+			err = context.Cause(ctx)
+		}
+		if err == nil {
+			err = fmt.Errorf("refresh #%d: context never became done", ev.K)
+		}
+		w.mu.Lock()
+		w.errs[ev.K], w.errWho[ev.K] = err, ev.Who
+		w.mu.Unlock()
+	}
 	return err
 }
 
@@ -236,9 +277,11 @@ func (w *rwWorld) Refresh(ctx context.Context) error {
 func (w *rwWorld) Handle(_ context.Context, err error) {
 	w.mu.Lock()
 	defer w.mu.Unlock()
+	// The latest periodic refresh that produced this very error value
+	// (context errors are shared sentinels: identity alone is not unique).
 	id := -1
 	for k, e := range w.errs {
-		if e == err {
+		if e == err && w.errWho[k] == "loop" && k > id {
 			id = k
 		}
 	}
@@ -377,6 +420,7 @@ func runRefresh(sc rwScenario) rwResult {
 		RefreshOnShutdown:  sc.ROS,
 	})
 	w.startCtx, w.startStop = context.WithCancel(w.startCtx)
+	w.shutCtx, w.shutStop = context.WithCancelCause(w.shutCtx)
 	cancelStart := func() {
 		w.mu.Lock()
 		w.log = append(w.log, rwEvent{Ev: "cancel"})
@@ -441,7 +485,7 @@ func runRefresh(sc rwScenario) rwResult {
 			default:
 				ev.Res = -2
 				for k, e := range w.errs {
-					if errors.Is(err, e) {
+					if errors.Is(err, e) && w.errWho[k] == "final" && k > ev.Res {
 						ev.Res = k
 					}
 				}
@@ -801,13 +845,17 @@ func recordRefresh(args []string) error {
 			allNil[i], lastErr[i], allErr[i] = "nil", "nil", "err"
 		}
 		lastErr[nt-1] = "err"
-		return [][]string{allNil, lastErr, allErr}
+		// the refresh's own context ends while it runs: its error, wrapped, its cause
+		lastCtx, firstCtx := append([]string{}, allNil...), append([]string{}, allErr...)
+		lastCtx[nt-1] = []string{"wctxerr", "ctxerr", "cause"}[nt%3]
+		firstCtx[0] = []string{"ctxerr", "cause", "wctxerr"}[nt%3]
+		return [][]string{allNil, lastErr, allErr, lastCtx, firstCtx}
 	}
 	type fin struct {
 		ros bool
 		out string
 	}
-	fins := []fin{{false, "nil"}, {true, "nil"}, {true, "err"}}
+	fins := []fin{{false, "nil"}, {true, "nil"}, {true, "err"}, {true, "wctxerr"}, {true, "ctxerr"}, {true, "cause"}}
 	for _, f := range fins {
 		for nt := 0; nt <= 3; nt++ {
 			for _, outs := range patterns(nt) {
@@ -833,7 +881,7 @@ func recordRefresh(args []string) error {
 	}
 	// Random block.
 	for h := 0; h < nh; h++ {
-		sc := rwScenario{ROS: rng.IntN(2) == 0, FinalOut: []string{"nil", "err"}[rng.IntN(2)], LoopFirst: rng.IntN(2) == 0,
+		sc := rwScenario{ROS: rng.IntN(2) == 0, FinalOut: []string{"nil", "err", "wctxerr", "ctxerr", "cause"}[rng.IntN(5)], LoopFirst: rng.IntN(2) == 0,
 			CancelAfter: -2}
 		nt := rng.IntN(41)
 		if h%5 == 0 {
@@ -854,7 +902,7 @@ func recordRefresh(args []string) error {
 		for i := 0; i < nt; i++ {
 			o := "nil"
 			if rng.Float64() < pErr {
-				o = "err"
+				o = []string{"err", "err", "wctxerr", "ctxerr", "cause"}[rng.IntN(5)]
 			}
 			sc.LoopOuts = append(sc.LoopOuts, o)
 		}
